@@ -108,19 +108,27 @@ def c13(tier, seed):
     return gs
 
 
+UNITS = ['MIT AND ', '(', 'GPL-2.0-or-later OR ', 'Apache-2.0-or-later AND ', 'Apache-2.0+ AND ', '(LicenseRef-a OR ', 'mit-or-later AND ( ',
+         'ISC-or-later  OR ', 'DocumentRef-d:LicenseRef-r AND   ', 'MIT-only OR ', 'GPL-2.0+ WITH Bison-exception-2.2 AND ', 'Zlib-or-later WITH LLVM-exception OR ']
+
+
 def c15(tier, seed):
     q = tier == 'quick'
-    npre = 12
+    prefixes = [''] + UNITS + [a + b for a in UNITS for b in UNITS]
+    if not q:
+        prefixes += [a + b + c for a in UNITS[2:8] for b in UNITS[2:8] for c in UNITS[2:8]]
+    else:
+        prefixes = prefixes[:13] + prefixes[13:][seed % 3::3]
     jobs = []
-    for pi in range(npre):
+    for pre in prefixes:
         for k in (1, 2, 3) if q else (1, 2, 3, 4, 5):
-            jobs.append([pi, k, 'id'])
-        jobs.append([pi, 1, 'stray'])
+            jobs.append([pre, k, 'id'])
+        jobs.append([pre, 1, 'stray'])
         for k in (0, 1):
-            jobs.append([pi, k, 'ref'])
-            jobs.append([pi, k, 'docref'])
+            jobs.append([pre, k, 'ref'])
+            jobs.append([pre, k, 'docref'])
     return [grp('offsets', 'VH_offsets', jobs, merge=ML, cost=10,
-                bound='12 valid prefixes (with -or-later forms, +, spaces, parentheses, refs) followed by an unknown id of <= %d symbolic id characters, a stray byte, or a truncated reference' % (3 if q else 5),
+                bound='%d valid prefixes (sequences of <= %d units with -or-later rewrites, +, WITH, spaces, parentheses, references) followed by an unknown id of <= %d symbolic id characters, a stray byte, or a truncated reference; each culprit is then presented again at the start of a string' % (len(prefixes), 2 if q else 3, 3 if q else 5),
                 symbolic='the bytes of the culprit', asserts=['offset-in-range', 'lexeme-at-offset', 'missing-id-offset'])]
 
 
@@ -157,6 +165,15 @@ def c02(tier, seed):
                   bound='7 LicenseRef / DocumentRef:LicenseRef texts against each other and against every license id',
                   symbolic='reference text (choice variable), license id (choice variable)',
                   asserts=['valid-terms-accepted', 'match-iff-documented', 'match-symmetric', 'match-reflexive']))
+    ids12 = ['MIT', 'GPL-2.0-only', 'GPL-3.0-only', 'GPL-2.0-or-later', 'Apache-2.0', 'LGPL-2.1', 'AGPL-1.0', 'CECILL-2.1', 'MPL-2.0', 'BSD-3-Clause', 'OLDAP-2.2.1', 'GPL-2.0']
+    ej = []
+    for k, ia in enumerate(ids12):
+        for ib in ([ia, ids12[(k + 1) % 12]] if tier == 'quick' else ids12):
+            for pa, pb in (('0', '0'), ('1', '0')) if tier == 'quick' else (('0', '0'), ('1', '0'), ('0', '1'), ('1', '1')):
+                ej.append([ia, pa, ib, pb])
+    gs.append(grp('L-MATCH/all-exceptions', 'VH_matchExc', ej, merge=M, cost=4,
+                  bound='%d id pairs from a 12-id universe, the exception on each side over all listed exception ids or none' % len(ej),
+                  symbolic='exception on each side (choice variables over the whole exception list + none)', asserts=['valid-terms-accepted', 'exception-must-agree']))
     return gs
 
 
